@@ -114,6 +114,12 @@ class Extractor:
 
     def _pred_set(self, body, op):
         """accept set (bytes) of a predicate operand: closure local or fn item"""
+        try:
+            return self._pred_set_inner(body, op)
+        except charset.Opaque as e:
+            raise Unsupported("character predicate not analysable (%s)" % e)
+
+    def _pred_set_inner(self, body, op):
         c = op_const(op)
         if c is not None and "fn" in c:
             n = norm(c["fn"]["name"])
